@@ -1,4 +1,101 @@
+/-
+C05 — property theorems (statements fixed by the architect; do not weaken).
+Helper lemmas: PeroVerif/Lemmas/ForceAlign.lean (and PeroVerif/Lemmas/Ctc.lean for collapse facts).
+-/
 import PeroVerif.Model.ForceAlign
+import PeroVerif.Lemmas.Ctc
+import PeroVerif.Lemmas.ForceAlign
+
 namespace C05
-theorem placeholder : (1:Nat) = 1 := rfl
+open Ctc FA
+
+/-- number of adjacent equal label pairs (each needs a separating blank frame) -/
+def repeats : List Nat → Nat
+  | a :: b :: r => (if a = b then 1 else 0) + repeats (b :: r)
+  | _ => 0
+
+/-- Well-formed call: at least one frame, every frame has a column for the blank and every label. -/
+def WF (M : List (List Cost)) (labels : List Nat) (blank : Nat) : Prop :=
+  M ≠ [] ∧ ∀ row ∈ M, blank < row.length ∧ ∀ l ∈ labels, l < row.length
+
+/-- Validity: one symbol per frame, collapsing exactly to the labels. -/
+theorem align_valid (M : List (List Cost)) (labels : List Nat) (blank : Nat) (π : List Nat)
+    (h : forceAlign M labels blank = .ok π) :
+    π.length = M.length ∧ collapse blank π = labels := by
+  obtain ⟨hb, _, p, _, rfl, hadm, hlen, _, _⟩ := forceAlign_ok_spec h
+  exact ⟨by simpa using hlen, hadm.collapse_eq hb⟩
+
+/-- The returned alignment has finite cost. -/
+theorem align_finite (M : List (List Cost)) (labels : List Nat) (blank : Nat) (π : List Nat)
+    (h : forceAlign M labels blank = .ok π) : (pathCost M π).isSome = true := by
+  obtain ⟨_, _, p, _, _, _, _, hfin, _⟩ := forceAlign_ok_spec h
+  exact hfin
+
+/-- Optimality among ALL frame paths that collapse to the labels. -/
+theorem align_optimal (M : List (List Cost)) (labels : List Nat) (blank : Nat) (π : List Nat)
+    (h : forceAlign M labels blank = .ok π) (π' : List Nat) (hl : π'.length = M.length)
+    (hc : collapse blank π' = labels) :
+    leC (pathCost M π) (pathCost M π') = true := by
+  obtain ⟨_, _, p, _, _, _, _, _, hopt⟩ := forceAlign_ok_spec h
+  exact hopt π' hl hc
+
+theorem reject_blank (M : List (List Cost)) (labels : List Nat) (blank : Nat) (h : blank ∈ labels) :
+    forceAlign M labels blank = .error .blankInLabels := by
+  simp [forceAlign, statePath, h, Except.map]
+
+theorem reject_empty (M : List (List Cost)) (blank : Nat) :
+    forceAlign M [] blank = .error .emptyLabels := by
+  simp [forceAlign, statePath, Except.map]
+
+/-- On well-formed calls the only failure is "unalignable", and it happens iff no finite-cost
+alignment exists (an alignment of infinite cost = zero probability counts as non-existent). -/
+theorem align_fails_iff (M : List (List Cost)) (labels : List Nat) (blank : Nat)
+    (hb : blank ∉ labels) (hne : labels ≠ []) (hwf : WF M labels blank) :
+    (forceAlign M labels blank = .error .unalignable ↔
+      ¬ ∃ π : List Nat, π.length = M.length ∧ collapse blank π = labels ∧ (pathCost M π).isSome = true) ∧
+    (∀ e, forceAlign M labels blank = .error e → e = .unalignable) :=
+  forceAlign_fails hb hne hwf.1 hwf.2
+
+/-- Finite matrices: failure iff too few frames for the labels plus the blanks needed between
+repeated labels. -/
+theorem fails_structural (M : List (List Cost)) (labels : List Nat) (blank : Nat)
+    (hb : blank ∉ labels) (hne : labels ≠ []) (hwf : WF M labels blank)
+    (hfin : ∀ row ∈ M, ∀ c ∈ row, c ≠ none) :
+    forceAlign M labels blank = .error .unalignable ↔ M.length < labels.length + repeats labels := by
+  have hrep : ∀ l : List Nat, repeats l = reps l := by
+    intro l
+    induction l with
+    | nil => rfl
+    | cons a r ih =>
+      cases r with
+      | nil => rfl
+      | cons b r => simp only [repeats, reps, ih]
+  rw [hrep]
+  exact forceAlign_fails_structural hb hne hwf.1 hwf.2 hfin
+
+/-- Character positions: one per label, strictly increasing, each a frame aligned to its label, and
+among those frames one where the network is most confident (smallest frame-minimum cost). -/
+theorem positions_spec (M : List (List Cost)) (labels : List Nat) (blank : Nat)
+    (ps : List (Option Nat)) (h : alignText M labels blank = .ok ps) :
+    ∃ (qs : List Nat) (pos : List (Option Nat)),
+      forceAlignPos M labels blank = .ok pos ∧
+      ps = qs.map some ∧ qs.length = labels.length ∧ qs.Pairwise (· < ·) ∧
+      ∀ i (hi : i < qs.length),
+        pos[qs[i]]? = some (some i) ∧
+        ∀ t, pos[t]? = some (some i) →
+          leC (frameMin (M.getD qs[i] [])) (frameMin (M.getD t [])) = true :=
+  alignText_spec M labels blank ps h
+
+/-! Non-vacuity -/
+example : (match forceAlign [[some 1, some 5, some 0], [some 5, some 1, some 0], [some 1, some 5, some 0]] [0, 0] 2 with
+    | .ok p => p == [0, 2, 0] | .error _ => false) = true := by decide
+example : (match forceAlign [[some 1, some 5, some 0], [some 5, some 1, some 0]] [0, 0] 2 with
+    | .error e => e == .unalignable | .ok _ => false) = true := by decide
+example : WF [[some 1, some 5, some 0], [some 5, some 1, some 0]] [0, 0] 2 := by
+  refine ⟨by simp, ?_⟩
+  intro row hrow
+  simp at hrow
+  rcases hrow with rfl | rfl <;> simp
+example : repeats [0, 0] = 1 := by decide
+
 end C05
